@@ -109,6 +109,21 @@ func c18Statement(r *core.Rand, g *gen.StmtGen) (string, string) {
 		big := pick(r, []string{"9223372036854775807", "9223372036854775806", "4611686018427387904", "2147483648"})
 		tail := pick(r, []string{"LIMIT " + big + " OFFSET 1", "LIMIT " + big + " OFFSET " + big, "OFFSET " + big + " LIMIT 1", "LIMIT " + big, "OFFSET " + big, "LIMIT 2 OFFSET " + big, "OFFSET 2 LIMIT " + big})
 		return fmt.Sprintf(pick(r, []string{"SELECT * FROM %s %s", "SELECT * FROM %s ORDER BY i %s", "SELECT count(*) FROM %s %s", "SELECT i, count(*) FROM %s GROUP BY i %s"}), t, tail), "limit_offset_extremes"
+	case 23:
+		// outer joins with an EMPTY side whose columns the statement names (in
+		// the select list, in WHERE, under COUNT / AVG, in ORDER BY): every
+		// preserved row is padded with NULLs there
+		good := func() string { return pick(r, []string{"i", "b", "s", "f", "n", "ns", "nf"}) }
+		return pick(r, []string{
+			fmt.Sprintf("SELECT t1.%s, e.%s FROM t1 LEFT JOIN e ON t1.i = e.i", good(), good()),
+			fmt.Sprintf("SELECT e.%s FROM t1 LEFT JOIN e ON t1.i = e.i WHERE e.%s = 1", good(), good()),
+			fmt.Sprintf("SELECT t1.%s FROM e RIGHT JOIN t1 ON t1.i = e.i", good()),
+			fmt.Sprintf("SELECT e.%s, t1.%s FROM e RIGHT JOIN t1 ON t1.i = e.i ORDER BY %s", good(), good(), good()),
+			fmt.Sprintf("SELECT count(e.%s), count(*) FROM t1 LEFT JOIN e ON t1.i = e.i", good()),
+			fmt.Sprintf("SELECT avg(e.i), t1.%s FROM t1 LEFT JOIN e ON t1.i = e.i GROUP BY t1.%s", "f", "f"),
+			fmt.Sprintf("SELECT x.%s, y.%s, z.%s FROM t1 x LEFT JOIN e y ON x.i = y.i LEFT JOIN t2 z ON z.i = x.i", good(), good(), good()),
+			fmt.Sprintf("SELECT * FROM e x RIGHT JOIN t2 y ON x.i = y.i WHERE y.%s = x.%s", good(), good()),
+		}), "outer_join_with_an_empty_side"
 	case 21, 22:
 		// select lists about as long as the table is wide, or longer (the same
 		// column several times), with aggregates in the last places, grouped
